@@ -32,7 +32,7 @@ func c14cases(env *core.Env) []c14case {
 	c01build()
 	c02build()
 	var cs []c14case
-	stride1, stride2 := env.Pick(12, 1), env.Pick(45, 4)
+	stride1, stride2 := env.Pick(4, 1), env.Pick(15, 2)
 	for _, shape := range []string{"plain", "txn"} {
 		for i := 0; i < len(c01matrix); i++ {
 			// every removal and rename case (a swallowed store error there loses data), a stride of the rest
@@ -45,7 +45,7 @@ func c14cases(env *core.Env) []c14case {
 				cs = append(cs, c14case{shape, "c02", i})
 			}
 		}
-		for i := 0; i < env.Pick(60, 1500); i++ {
+		for i := 0; i < env.Pick(200, 4000); i++ {
 			cs = append(cs, c14case{shape, "random", i})
 		}
 	}
